@@ -13,6 +13,8 @@ VERIF = os.path.dirname(os.path.dirname(os.path.abspath(__file__)))
 CACHE = os.path.join(VERIF, '.cache')
 KANI_DIR = os.path.join(VERIF, 'kani')
 
+EXPECTED_PANICS = json.load(open(os.path.join(KANI_DIR, 'expected_panics.json'))) if os.path.exists(os.path.join(KANI_DIR, 'expected_panics.json')) else {}
+
 # harness module file -> source file it is appended to
 APPEND = {
     'varint.rs': 'src/varint.rs',
@@ -43,6 +45,7 @@ def tree_hash(repo):
             h.update(open(p, 'rb').read())
     for f in sorted(os.listdir(KANI_DIR)):
         h.update(open(os.path.join(KANI_DIR, f), 'rb').read())
+    h.update(open(os.path.abspath(__file__), 'rb').read())
     return h.hexdigest()[:20]
 
 
@@ -118,6 +121,14 @@ def run_harnesses(harnesses, repo='/repo', timeout=1800, extra_args=()):
                     else:
                         status = 'error'
                     failed_checks = re.findall(r'Failed Checks: (.*)', out)
+                    # harnesses whose every path must end in a *defined* refusal (expect/unwrap panic): the listed panic
+                    # descriptions are the only failed checks allowed, and at least one must be present
+                    exp = EXPECTED_PANICS.get(h)
+                    if exp and status == 'failed':
+                        if failed_checks and all(any(re.search(e, fc.strip()) for e in exp) for fc in failed_checks):
+                            status = 'success'
+                    elif exp and status == 'success':
+                        status = 'failed'  # nothing refused: the call returned or the harness is vacuous
                     mm = re.search(r'\*\* (\d+) of (\d+) failed', out)
                     total = int(mm.group(2)) if mm else None
                     vt = re.search(r'Verification Time: ([\d.]+)s', out)
